@@ -1,4 +1,5 @@
 import TsVerif.C09.Lemmas
+import TsVerif.C09.Tie
 /-!
 # C09 — The tree is a pure function of language, text and included ranges
 
@@ -22,9 +23,15 @@ Clause map (theorems are about the ports `Utf8.lean` (= `ts_decode_utf8`/`U8_NEX
   `chars_chunk_indep`, `chars_chunk_indep_two`: the same for the WHOLE sequence `(offset, code point,
   size)`, by induction over repeated advance with the invariant "cached chunk is a prefix of the text
   at `chunk_start`", for the chunk logic `coreChars` (fetch / decode with retry / advance by size).
-  OPEN `lexStream_eq_coreChars`: that the full port (`start`/`advance` with ranges, columns, BOM skip
-  and the ASCII fast path) produces that same sequence — checked by the driver on every chunk drive.
-  OPEN `fastpath_eq`, `utf16_utf8_same_chars`, `column_cache_eq` (DESIGN §7).
+  `lexStream_eq_coreChars`, `chars_chunk_indep_port`: the FULL port (`set_input`, `start`, `advance` with the
+  ASCII fast path, row/column/column-cache updates, the range loop over the default range) produces exactly
+  that sequence, for every chunking of a text < 2^32 bytes that does not begin with a BOM (the BOM skip of
+  `ts_lexer_start` is the one case left to the per-drive check of the driver).
+* UTF-16 delivery → `utf16_decode_encode` (the UTF-16LE/BE decoder port, with the trail unit converted like the
+  lead unit, reads back every scalar value from its encoding) and `utf16be_trail_witness` (unicode.h as it is
+  does NOT for UTF-16BE on a little-endian host: genuine finding C09-utf16be-surrogate-pair, fix proposed).
+  OPEN `utf8_decode_encode` (the same for the `U8_NEXT` port; needs the bit-level lemmas) and hence
+  `utf16_utf8_same_chars`; OPEN `column_cache_eq`.
 * UTF-16 delivery, parser history, logger, cancellation + resume/reset → no model of `TSParser`;
   decided per real case by the Lean judge on full dumps (implementation vs implementation).
 -/
@@ -175,6 +182,114 @@ theorem chars_chunk_indep_two (text : List Nat) (r1 r2 : Read)
 
 example : let text := [0x61, 0xe2, 0x82, 0xac, 0x62]
     coreChars (fun i => (text.drop i).take 3) 9 0 ⟨0, []⟩ = [(0, 0x61, 1), (1, 0x20ac, 3), (4, 0x62, 1)] := by decide
+
+/-- `lexStream_eq_coreChars`: for every text shorter than `UINT32_MAX` that does not begin with a
+byte-order mark and every chunking of it, the sequence `(offset, look-ahead, size)` that the FULL
+lexer port produces (`ts_lexer_set_input`, `ts_lexer_start`, then `ts_lexer__advance` with its ASCII
+fast path, row/column and column-cache updates, the range-skipping loop over the default range)
+is the sequence of the chunk logic `coreChars` that `chars_chunk_indep` is about. -/
+theorem lexStream_eq_coreChars (text : List Nat) (read : Read) (hch : ChunkingOf text read)
+    (hsmall : text.length < UMAX) (hbom : (coreLook read 0 ⟨0, []⟩).1 ≠ BYTE_ORDER_MARK) (fuel : Nat) :
+    lexStream read fuel = coreChars read fuel 0 ⟨0, []⟩ := by
+  obtain ⟨f1, f2, f3, f4, f5, f6⟩ := l00_fields
+  unfold lexStream
+  rw [start_eq]
+  have sp := refill_spec read l00
+  simp only at sp
+  rw [f1, f4, f5] at sp
+  have hz : length_zero.bytes = 0 := rfl
+  rw [hz] at sp
+  obtain ⟨s1, s2, s3, s4⟩ := sp
+  cases fuel with
+  | zero => simp [lexChars, coreChars]
+  | succ fuel =>
+    by_cases heof : (coreLook read 0 ⟨0, []⟩).2.2.2 = true
+    · have h3 := s3 heof
+      rw [coreChars_succ]
+      have hla : ((l00.refill read).lookahead == BYTE_ORDER_MARK) = false := by rw [h3.2.1]; decide
+      simp only [hla, Bool.false_eq_true, if_false]
+      unfold lexChars
+      have : ({ l00.refill read with colValid := true, colValue := 0 } : Lexer).eof = true := by
+        show ((l00.refill read).idx == (l00.refill read).ranges.size) = true
+        rw [h3.1, s2]; simp [Lexer.count]
+      simp [this, heof]
+    · have heof' : (coreLook read 0 ⟨0, []⟩).2.2.2 = false := by simpa using heof
+      have hfacts := coreLook_facts text read hch 0 ⟨0, []⟩ (Or.inl rfl) heof'
+      simp only at hfacts
+      obtain ⟨m1, m2, m3, m4, m5, m6⟩ := hfacts
+      obtain ⟨t1, t2, t3, t4, t5⟩ := s4 heof' m1
+      have hla : ((l00.refill read).lookahead == BYTE_ORDER_MARK) = false := by
+        rw [t2]; simpa using hbom
+      simp only [hla, Bool.false_eq_true, if_false]
+      let l1 : Lexer := { l00.refill read with colValid := true, colValue := 0 }
+      have hinv : Inv l1 :=
+        { ranges := by show (l00.refill read).ranges = _; rw [s2, f3]
+          idx := by show (l00.refill read).idx = 0; rw [t1, f2]
+          size := by show 1 ≤ (l00.refill read).laSize; rw [t3]; exact m5
+          lo := by show (l00.refill read).chunkStart ≤ (l00.refill read).pos.bytes; rw [t4, s1]; exact m3
+          hi := by show (l00.refill read).pos.bytes < (l00.refill read).chunkStart + (l00.refill read).chunk.length
+                   rw [t4, t5, s1]; exact m4
+          small := by show (l00.refill read).pos.bytes + (l00.refill read).laSize < UMAX
+                      rw [s1, t3]; have : length_zero.bytes = 0 := rfl; omega }
+      have := lexChars_core text read hch hsmall (fuel + 1) l1 ⟨0, []⟩ hinv (Or.inl rfl)
+        (by show coreLook read (l00.refill read).pos.bytes ⟨0, []⟩ = ((l00.refill read).lookahead, (l00.refill read).laSize, ⟨(l00.refill read).chunkStart, (l00.refill read).chunk⟩, false)
+            rw [s1, t2, t3, t4, t5, hz]; rw [← heof'])
+      have hp0 : l1.pos.bytes = 0 := by show (l00.refill read).pos.bytes = 0; rw [s1]; rfl
+      rw [hp0] at this
+      exact this
+
+/-- Chunk independence for the FULL lexer port: two chunkings of the same text (shorter than
+`UINT32_MAX`, not starting with a byte-order mark) that both satisfy `WholeChar` make
+`start`/`advance` produce the same `(offset, look-ahead, size)` sequence. -/
+theorem chars_chunk_indep_port (text : List Nat) (r1 r2 : Read)
+    (h1 : ChunkingOf text r1) (w1 : WholeChar text r1) (h2 : ChunkingOf text r2) (w2 : WholeChar text r2)
+    (hsmall : text.length < UMAX)
+    (b1 : (coreLook r1 0 ⟨0, []⟩).1 ≠ BYTE_ORDER_MARK) (b2 : (coreLook r2 0 ⟨0, []⟩).1 ≠ BYTE_ORDER_MARK)
+    (fuel : Nat) : lexStream r1 fuel = lexStream r2 fuel := by
+  rw [lexStream_eq_coreChars text r1 h1 hsmall b1, lexStream_eq_coreChars text r2 h2 hsmall b2]
+  exact chars_chunk_indep_two text r1 r2 h1 w1 h2 w2 fuel
+
+/-- `utf16_decode_encode`: the UTF-16 decoder with the trail unit converted like the lead unit (the
+decoder as it should be) reads back every Unicode scalar value from its UTF-16LE/BE encoding, whatever
+follows, with the right size. -/
+theorem utf16_decode_encode (be : Bool) (c : Nat) (hc : Scalar c) (rest : List Nat) :
+    decodeUtf16 be (encodeUtf16 be c ++ rest) true = ((c : Int), (encodeUtf16 be c).length) := by
+  obtain ⟨h1, h2⟩ := hc
+  unfold encodeUtf16
+  by_cases hb : c < 0x10000
+  · simp only [hb, if_true]
+    cases be
+    · have e : unit16 false (c % 256) (c / 256) = c := by simp [unit16]; omega
+      have := Utf.decode16_bmp false (c % 256) (c / 256) rest (by rw [e]; omega) true
+      simpa [e] using this
+    · have e : unit16 true (c / 256) (c % 256) = c := by simp [unit16]; omega
+      have := Utf.decode16_bmp true (c / 256) (c % 256) rest (by rw [e]; omega) true
+      simpa [e] using this
+  · simp only [hb, if_false]
+    generalize hhi : 0xD800 + (c - 0x10000) / 1024 = hi
+    generalize hlo : 0xDC00 + (c - 0x10000) % 1024 = lo
+    have r1 : 0xD800 ≤ hi ∧ hi < 0xDC00 := by omega
+    have r2 : 0xDC00 ≤ lo ∧ lo < 0xE000 := by omega
+    have hv : hi * 1024 + lo - SURROGATE_OFFSET = c := by simp [SURROGATE_OFFSET]; omega
+    cases be
+    · have e1 : unit16 false (hi % 256) (hi / 256) = hi := by simp [unit16]; omega
+      have e2 : unit16 false (lo % 256) (lo / 256) = lo := by simp [unit16]; omega
+      have := Utf.decode16_pair false (hi % 256) (hi / 256) (lo % 256) (lo / 256) rest (by rw [e1]; exact r1) (by rw [e2]; exact r2)
+      simpa [e1, e2, hv] using this
+    · have e1 : unit16 true (hi / 256) (hi % 256) = hi := by simp [unit16]; omega
+      have e2 : unit16 true (lo / 256) (lo % 256) = lo := by simp [unit16]; omega
+      have := Utf.decode16_pair true (hi / 256) (hi % 256) (lo / 256) (lo % 256) rest (by rw [e1]; exact r1) (by rw [e2]; exact r2)
+      simpa [e1, e2, hv] using this
+
+/-- The decoder as unicode.h has it: the UTF-16BE encoding of U+1D4B3 (D8 35 DC B3) is read as the
+unpaired lead surrogate 0xD835 of size 2 — the pair is not recognised; the LE encoding is read correctly. -/
+theorem utf16be_trail_witness :
+    decodeUtf16 true [0xD8, 0x35, 0xDC, 0xB3] false = (0xD835, 2) ∧
+    decodeUtf16 true [0xD8, 0x35, 0xDC, 0xB3] true = (0x1D4B3, 4) ∧
+    decodeUtf16 false [0x35, 0xD8, 0xB3, 0xDC] false = (0x1D4B3, 4) := by decide
+
+example : Scalar 0x1D4B3 ∧ encodeUtf16 true 0x1D4B3 = [0xD8, 0x35, 0xDC, 0xB3] :=
+  ⟨⟨by decide, by decide⟩, by decide⟩
 
 /-- Non-vacuity: `a€b`, chunks of three bytes, at the start of `€`. -/
 example : let text := [0x61, 0xe2, 0x82, 0xac, 0x62]
